@@ -25,6 +25,8 @@ Rounded semantics (`Core/RoundedOps.lean`), on the exact rational values of the 
   xhyp sbxb <eta> <x1> <x2> <xl> <xu> <rand>    first failing clause of `sbxbHyp binary64` (`ok` = the hypotheses of
                                                 `C10.sbxb_rounded_locus` hold), `nonfinite` for a non-finite operand
   xhyp poly <eta> <x> <xl> <xu> <rand>          likewise `polyHyp binary64` / `C10.poly_rounded_locus`
+  xhyp logn <strategy> <arg>                    first failing clause of `lognMag binary64 s a (lognK a)`
+                                                (`ok` = the hypothesis of `C10.lognormal_pos_rounded_locus` holds)
 -/
 namespace DriverC10
 open Proto RealOps
@@ -128,6 +130,13 @@ def handle : List String → String
     | some (e, x, l, u, d) =>
       match (do let e ← finite? e; let x ← finite? x; let l ← finite? l; let u ← finite? u
                 let d ← finite? d; pure (RoundedOps.polyWhy RoundedOps.binary64 e x l u d)) with
+      | some w => w
+      | none => "nonfinite"
+    | none => "bad-op"
+  | ["xhyp", "logn", st, ar] =>
+    match (do let s ← parseXF st; let a ← parseXF ar; pure (s, a)) with
+    | some (s, a) =>
+      match (do let s ← finite? s; let a ← finite? a; pure (RoundedOps.lognWhy RoundedOps.binary64 s a)) with
       | some w => w
       | none => "nonfinite"
     | none => "bad-op"
